@@ -839,9 +839,9 @@ func (m *connectUnaryMarshaler) Marshal(message any) *Error {
 	if err != nil {
 		return errorf(CodeInternal, "marshal message: %w", hideEOF(err))
 	}
-	// Can't avoid allocating the slice, but we can reuse it.
+	// The slice is the codec's: it may be memory the codec keeps, so it
+	// mustn't go into the buffer pool, where the next user would overwrite it.
 	uncompressed := bytes.NewBuffer(data)
-	defer m.bufferPool.Put(uncompressed)
 	if len(data) < m.compressMinBytes || m.compressionPool == nil {
 		// The header map may already name an encoding: a Request that was sent
 		// compressed before, or headers copied from another call. This body
